@@ -16,6 +16,7 @@ from verifcheck import core
 ok = True
 for f in sorted(os.listdir("checks")):
     if f.endswith(".py"):
+        if f[:-3] not in open("checks/READY").read().split(): continue
         cfg = core.load_config(f[:-3])
         if cfg.get("regen") and not cfg.get("not_applicable"):
             good, msg = core.regen(cfg, {})
